@@ -211,6 +211,10 @@ def main():
             vlib.run_cases_on_harness(cases)
         except RuntimeError as e:
             problems.append(("harness-run", str(e)))
+        if hasattr(mod, "wrap_impl"):
+            for c in cases:
+                if c.impl is not None:
+                    c.impl = mod.wrap_impl(c, c.impl)
         if all(c.impl is not None for c in cases):
             failures, errors = vlib.eval_shards(prop, "Corr." + prop, cases, imports=getattr(mod, "IMPORTS", ""),
                                                 per_shard=getattr(mod, "PER_SHARD", 60), case_type=getattr(mod, "CASE_TYPE", "(pcase * pout)"))
@@ -333,6 +337,10 @@ def shrink_case(prop, mod, case, code):
             break
         cands = cands[:48]
         vlib.run_cases_on_harness(cands)
+        if hasattr(mod, "wrap_impl"):
+            for c in cands:
+                if c.impl is not None:
+                    c.impl = mod.wrap_impl(c, c.impl)
         fails, _ = vlib.eval_shards(prop, "Corr." + prop, cands, imports=getattr(mod, "IMPORTS", ""), per_shard=4, case_type=getattr(mod, "CASE_TYPE", "(pcase * pout)"),
                                     workdir=os.path.join(vlib.BUILD, "cases", prop + "-shrink"))
         nxt = None
